@@ -450,6 +450,12 @@ TIES = {
     'ReturnPath': dict(props=['C08', 'C17'], gen=['ReturnHandlerCall', 'TraceReturnVoid', 'TraceReturnValue'],
                        theorems=['return_path_tie', 'return_evaluated_once'],
                        cxx='return_handler_t::call and the two trace_return<Ret> helpers (mock.hpp): the RETURN functor is evaluated once'),
+    'RingScripts': dict(props=['C14'], gen=['RunActions', 'Notify', 'Decommission', 'ExpectationsDtor'],
+                        theorems=['run_actions_list_script', 'run_actions_heap', 'run_actions_seq_script', 'run_actions_seq_heap',
+                                  'notify_seq_script', 'notify_seq_heap', 'decommission_list_script', 'expectations_dtor_list_script',
+                                  'kill_script_from_cxx', 'kill_heap_from_cxx'],
+                        cxx='which ring operations run_actions / lifetime_monitor::notify / decommission / ~expectations perform on the '
+                            'mock-function lists and the sequence lists (read off their translations), composed with the heap refinement'),
     'Ring': dict(props=['C14'], gen=['RingUnlink', 'RingElemDtor', 'RingMoveAssign', 'RingPushFront', 'RingPushBack', 'RingBegin', 'RingEnd',
                                     'RingIterIncr', 'RingIsLinked', 'RingListDtor'],
                  theorems=['ring_unlink_tie', 'ring_elem_dtor_tie', 'ring_move_assign_tie', 'ring_push_front_tie', 'ring_push_back_tie',
